@@ -182,6 +182,9 @@ impl World {
                     Ok(b) => disk.with(|d| {
                         d.backend = Some(b);
                         d.backend_name = w.cfg.backend.clone();
+                        if crate::backends::persistent(&w.cfg.backend) {
+                            d.sync_handle = crate::backends::open(&w.cfg.backend, &path).ok();
+                        }
                     }),
                     Err(c) => return Err(Stop::Violation(Violation { prop: w.prop.clone(), check: "backend-open".into(), class: format!("backend-open-{}", c.class()), step: 0, detail: format!("constructing backend {} does not return: {}", w.cfg.backend, c.text()) })),
                 }
